@@ -89,6 +89,12 @@ class Exec:
             self._pcount = [0, 0, 0]
             for h in self.ctx.global_axioms:
                 ps.add(h)
+        if len(E.STR_CONSTS) != getattr(self, "_nstr", 0) or self._pcount == [0, 0, 0]:
+            # distinct string literals (and None / True / False) denote distinct objects: lets the path solver prune e.g.
+            # x == 'a' and x == 'b'
+            from .objmodels import NONE_U, TRUE_U, FALSE_U
+            ps.add(z3.Distinct(NONE_U, TRUE_U, FALSE_U, *E.STR_CONSTS.values()))
+            self._nstr = len(E.STR_CONSTS)
         srcs = (E.PENDING_FACTS, self.st.facts, self.st.pc)
         for k, src in enumerate(srcs):
             for h in src[self._pcount[k]:]:
@@ -149,6 +155,22 @@ class Exec:
                 raise PathEnd()
             return
         self.st.facts.append(to_z3(fact, "bool"))
+
+    # ------------------------------------------------------------------ abstract ("dataflow") mode
+    # options["abstract"]: values the engine has no model for are uninterpreted objects; library calls, operators, subscripts and
+    # non-mutating method calls on them are deterministic, side-effect-free functions of their operands (recorded assumption).
+    # options["summaries"]: repo functions abstracted the same way (callee must be pure; recorded per function).
+    _MUTATING = {"sort", "fill", "put", "resize", "itemset", "setflags", "append", "extend", "insert", "remove", "pop", "clear",
+                 "update", "setdefault", "popitem", "add", "discard", "partition", "byteswap", "close", "load", "persist"}
+    _MUTATING_LIB = {"numpy.put", "numpy.copyto", "numpy.place", "numpy.putmask", "numpy.fill_diagonal", "numpy.put_along_axis"}
+
+    @property
+    def abstract(self):
+        return bool(self.ctx.options.get("abstract"))
+
+    def abs_apply(self, name, args, kwargs=None):
+        from .objmodels import abs_value
+        return abs_value(self, name, args, kwargs or {})
 
     def oblige(self, kind, goal, clause, node=None, tag=None, static=None, backend="z3"):
         if not self.emitting:
@@ -300,6 +322,21 @@ class Exec:
             g = self.eval_clause(body, cenv, NORESULT)
             self.oblige("ghost_assert", g, body, node)
             self.assume(g)
+        elif kind == "define":
+            # define f(a1, ..., an) = e : ghost definition of the spec function f at these arguments.  Well-definedness (e is a function
+            # of a1..an over all pairs of paths) is an obligation; the defining equation is then available to later clauses.
+            from .objmodels import two_safety, uterm, _uf
+            head, _, ex = body.partition("=")
+            fname, _, rest = head.strip().partition("(")
+            argsrc = "(" + rest.strip()[:-1] + ",)"
+            avals = self.eval_clause(argsrc, cenv, NORESULT)
+            val = self.eval_clause(ex.strip(), cenv, NORESULT)
+            aterms = [uterm(a) for a in avals]
+            vterm = uterm(val)
+            g = two_safety(self, "define:" + fname.strip(), aterms, vterm)
+            self.oblige("define", g, f"{fname.strip()} is well defined: {ex.strip()} is a function of {rest.strip()[:-1]} only", node,
+                        tag=fname.strip())
+            self.assume(_uf(fname.strip(), len(aterms))(*aterms) == vterm)
         elif kind == "let":
             name, _, ex = body.partition("=")
             self.st.ghostvars[name.strip()] = self.eval_clause(ex, cenv, NORESULT)
@@ -413,6 +450,8 @@ class Exec:
             if c is None:
                 self.oblige("unpack_len", eq_val(v.shape[0], n), f"len == {n}", node)
             return [self.index_arr(v, (i,), node) for i in range(n)]
+        if isinstance(v, Opaque) and self.abstract:
+            return [self.abs_apply("item", [v, i]) for i in range(n)]
         raise Unsupported(f"unpacking {type(v).__name__} at {loc_of(fr, node)}")
 
     def st_Return(self, s, env, fr):
@@ -957,7 +996,8 @@ class Exec:
                     return v if not vals else or_vals(vals + [True])
                 continue
             # symbolic: if later operands have calls (could raise / index), fork to keep short-circuit semantics
-            if not isinstance(fr, _SpecFrame) and not last and any(_has_call(x) or _has_subscript(x) for x in n.values[i + 1:]):
+            if not isinstance(fr, _SpecFrame) and not last and any(_has_call(x) or (_has_subscript(x) and not self._total_subscripts(x, env, fr))
+                                                                   for x in n.values[i + 1:]):
                 d = self.decide(t)
                 if is_and and not d:
                     return False
@@ -969,8 +1009,39 @@ class Exec:
             return is_and
         return and_vals(vals) if is_and else or_vals(vals)
 
+    def _total_subscripts(self, x, env, fr):
+        """every subscript in x is a literal-key lookup in a mapping that certainly has the key (cannot raise): evaluating x eagerly
+        is then equivalent to python's short-circuit evaluation"""
+        for sub in ast.walk(x):
+            if not isinstance(sub, ast.Subscript):
+                continue
+            if not (isinstance(sub.slice, ast.Constant) and isinstance(sub.slice.value, str)) or _has_call(sub.value):
+                return False
+            b = sub.value
+            while isinstance(b, ast.Attribute):
+                b = b.value
+            if not isinstance(b, ast.Name) or b.id not in env:
+                return False
+            try:
+                base = self.eval(sub.value, env, fr)
+            except (Unsupported, PathRaise):
+                return False
+            k = sub.slice.value
+            if isinstance(base, dict):
+                if k not in base:
+                    return False
+            elif isinstance(base, SymDict):
+                e = base.entries.get(k)
+                if e is None or e[0] is not True:
+                    return False
+            else:
+                return False
+        return True
+
     def ev_UnaryOp(self, n, env, fr):
         v = self.eval(n.operand, env, fr)
+        if self.abstract and isinstance(v, Opaque) and not isinstance(n.op, ast.Not):
+            return self.abs_apply("unop:" + type(n.op).__name__, [v])
         if isinstance(n.op, ast.Not):
             return not_val(truth(v) if not (isinstance(v, bool) or is_sym_bool(v)) else v)
         if isinstance(n.op, ast.USub):
@@ -995,6 +1066,8 @@ class Exec:
         return self.binop(op, a, b, n)
 
     def binop(self, op, a, b, node):
+        if self.abstract and (isinstance(a, Opaque) or isinstance(b, Opaque)):
+            return self.abs_apply("op:" + op, [a, b])
         if isinstance(a, (list, tuple)) and isinstance(b, (list, tuple)) and op == "+":
             return type(a)(list(a) + list(b))
         if isinstance(a, str) and isinstance(b, str) and op == "+":
@@ -1132,6 +1205,15 @@ class Exec:
                 r = r if isinstance(op, ast.In) else not_val(r)
             elif isinstance(left, (Arr, Small, V.Masked)) or isinstance(right, (Arr, Small, V.Masked)):
                 r = self.elementwise2(left, right, lambda x, y, op=op: compare(op, x, y), "bool")
+            elif self.abstract and (isinstance(left, Opaque) or isinstance(right, Opaque)) \
+                    and not isinstance(op, (ast.Is, ast.IsNot)) and left is not None and right is not None:
+                if isinstance(op, (ast.Eq, ast.NotEq)):
+                    # == on uninterpreted values: equal exactly when they denote the same value (term equality)
+                    from .objmodels import uterm
+                    r = uterm(left) == uterm(right)
+                    r = r if isinstance(op, ast.Eq) else z3.Not(r)
+                else:
+                    r = self.abs_apply("cmp:" + type(op).__name__, [left, right])
             else:
                 r = compare(op, left, right)
             res.append(r)
@@ -1309,6 +1391,8 @@ class Exec:
             cm = self.class_member(base.cls, "__getitem__")
             if cm is not None:
                 return self.call_function(cm, [base, idx[0]], {}, n, env, fr)
+        if isinstance(base, Opaque) and self.abstract:
+            return self.abs_apply("getitem", [base, tuple(idx)])
         raise Unsupported(f"subscript of {type(base).__name__} at {loc_of(fr, n)}")
 
     def fresh_entry(self, d, key):
@@ -1687,7 +1771,7 @@ class Exec:
         return self.call(fn, args, kwargs, n, env, fr)
 
     def call(self, fn, args, kwargs, n, env, fr):
-        if isinstance(fn, Builtin):
+        if isinstance(fn, Builtin) and not (self.abstract and any(isinstance(a, Opaque) for a in list(args) + list(kwargs.values()))):
             if fn.fn is not None:
                 return fn.fn(self, args, kwargs, n)
             h = self.models.get("builtins." + fn.name)
@@ -1698,10 +1782,24 @@ class Exec:
             return self.call_function(fn.info, args, kwargs, n, env, fr)
         if isinstance(fn, BoundMethod):
             return self.call_method(fn.obj, fn.name, args, kwargs, n, env, fr)
+        if isinstance(fn, (Builtin, ModRef)) and self.abstract and fn.name not in ("DataArray", "xarray.DataArray") \
+                and any(isinstance(a, Opaque) for a in list(args) + list(kwargs.values())):
+            cname = _canon_mod(fn.name)
+            if cname in self._MUTATING_LIB:
+                raise Unsupported(f"library function {cname} mutates its argument (no abstraction)")
+            h = (fn.fn if isinstance(fn, Builtin) else None) or self.models.get(cname) or self.models.get("builtins." + cname)
+            if h is not None:
+                try:
+                    return h(self, args, kwargs, n)
+                except Unsupported:
+                    pass
+            return self.abs_apply("lib:" + cname, args, kwargs)
         if isinstance(fn, ModRef):
             h = self.models.get(_canon_mod(fn.name))
             if h is not None:
                 return h(self, args, kwargs, n)
+            if self.abstract and _canon_mod(fn.name) not in self._MUTATING_LIB:
+                return self.abs_apply("lib:" + _canon_mod(fn.name), args, kwargs)
             raise Unsupported(f"call of unmodelled library function {fn.name} at {loc_of(fr, n)}")
         if isinstance(fn, ClassRef):
             h = self.models.get(f"class:{fn.name}")
@@ -1737,6 +1835,10 @@ class Exec:
             h = self.methods.get((obj.cls, "call:" + name))
             if h is not None:
                 return h(self, obj, args, kwargs, n, env, fr)
+        if isinstance(obj, Opaque) and self.abstract:
+            if name in self._MUTATING or name.startswith("set"):
+                raise Unsupported(f"method .{name}() may mutate an abstract object at {loc_of(fr, n)}")
+            return self.abs_apply("meth:" + name, [obj] + list(args), kwargs)
         raise Unsupported(f"method .{name}() on {type(obj).__name__}" + (f"<{obj.cls}>" if isinstance(obj, Obj) else "")
                           + f" at {loc_of(fr, n)}")
 
@@ -1773,6 +1875,11 @@ class Exec:
     def call_function(self, info, args, kwargs, n, env, fr):
         q = info.qualname
         c = self.ctx.registry.get(q)
+        if q in (self.ctx.options.get("summaries") or ()):
+            bound = self.bind_args(info, args, kwargs, env, fr)
+            from .objmodels import trusted as _trusted
+            _trusted(self, f"summary: {q} is a deterministic, side-effect-free function of its arguments")
+            return self.abs_apply("fn:" + q, [bound[a] for a, _ in info.params()[0] if a in bound])
         bound = self.bind_args(info, args, kwargs, env, fr)
         if c is not None and not c.inline and not (self.frames and self.frames[0].info is info and len(self.frames) == 0):
             return self.call_contract(info, c, bound, n, fr)
